@@ -205,6 +205,11 @@ func opPJSON(c Obj) J {
 	}
 	hasText := why == ""
 	via, _ := c["via"].(string)
+	if via == "json" && strings.HasPrefix(why, "odd name") {
+		// an AST with names the syntax cannot spell is no policy for the text codec -- unless the JSON DECODER accepts
+		// it: then it is a policy decoded from JSON and the statement speaks about its text form
+		hasText = true
+	}
 	switch via {
 	case "json":
 		b, err := subject.MarshalJSON()
@@ -461,7 +466,7 @@ func policyRespellings(doc J) []respelled {
 			return j
 		}
 		items, _ := j.(Obj)["a"].([]any)
-		arr := []any{}
+		arr := []any{tObj(tMember("Literal", tStr("")))} // an empty literal in front (of a wildcard, too) adds nothing
 		for _, it := range items {
 			lit, ok := tGet(it, "Literal")
 			if !ok {
@@ -473,9 +478,7 @@ func policyRespellings(doc J) []respelled {
 			arr = append(arr, tObj(tMember("Literal", tStr(string(r[:h])))), tObj(tMember("Literal", tStr(""))),
 				tObj(tMember("Literal", tStr(string(r[h:])))))
 		}
-		if len(items) == 0 {
-			arr = append(arr, tObj(tMember("Literal", tStr(""))))
-		}
+		arr = append(arr, tObj(tMember("Literal", tStr(""))))
 		return Obj{"a": arr}
 	}), nil)
 	// extension values <-> constructor calls
@@ -607,10 +610,31 @@ func drivePJSON(seed int64, n int, params map[string]string) []Obj {
 			p.Annotations = append(p.Annotations, ast.AnnotationType{Key: types.Ident(fmt.Sprintf("note%d", g.r.Intn(1000))), Value: types.String(s)})
 		}
 		envs := []any{cwf.EnvToJ(g.env()), cwf.EnvToJ(g.env()), cwf.EnvToJ(g.env())}
+		if i%16 == 7 {
+			// names the syntax cannot spell, offered to the JSON decoder
+			odd := types.EntityType(oddTypeNames[g.r.Intn(len(oddTypeNames))])
+			switch g.r.Intn(5) {
+			case 0:
+				p.Principal = ast.ScopeTypeIs{Type: odd}
+			case 1:
+				p.Resource = ast.ScopeTypeIsIn{Type: odd, Entity: g.uid()}
+			case 2:
+				p.Conditions = append(p.Conditions, ast.ConditionType{Condition: ast.ConditionWhen, Body: ast.Principal().Is(odd).AsIsNode()})
+			case 3:
+				p.Conditions = append(p.Conditions, ast.ConditionType{Condition: ast.ConditionWhen,
+					Body: ast.Principal().Equal(ast.Value(types.NewEntityUID(odd, "x"))).AsIsNode()})
+			default:
+				p.Annotations = append(p.Annotations, ast.AnnotationType{Key: types.Ident(oddTypeNames[g.r.Intn(len(oddTypeNames))]), Value: "v"})
+			}
+			out = append(out, Obj{"op": "pjson", "policy": cwf.PolicyToJ(p), "via": "json", "envs": envs})
+			continue
+		}
 		out = append(out, Obj{"op": "pjson", "policy": cwf.PolicyToJ(p), "via": vias[i%3], "envs": envs})
 	}
 	return out
 }
+
+var oddTypeNames = []string{"User || true", "a b", "if", "", "A::", "::A", "1A", "A::B C", "true", "A-B", "\u00e9", "U) when { true", "A::in"}
 
 func init() { drivers["pjson"] = drivePJSON }
 
